@@ -46,9 +46,10 @@ def gen_op(rng, gd, dist, layers, ic):
     if k < 0.7:
         return ("inverted_neighbors", {"state": st})
     if k < 0.78:
-        return ("find_path", {"state": st, "max_diameter": rng.choice([None, 1, 2, 3])})
+        return ("find_path", {"state": st, "max_diameter": rng.choice([None, 1, 2, 3]), "max_layer_size_to_explore": rng.choice([None, None, 10**7, 5, 50])})
     if k < 0.84:
-        return ("apply_path", {"state": st, "path": [rng.randrange(G.n_gens(gd)) for _ in range(3)]})
+        return ("apply_path", {"state": st, "path": [rng.randrange(G.n_gens(gd)) for _ in range(rng.randint(0, 4))],
+                               "as": rng.choice(["list", "tensor", "ndarray", "central_state_of_the_graph"])})
     if k < 0.9:
         return ("export", {})
     if k < 0.93:
@@ -89,9 +90,18 @@ def do_op(graph, gd, op, args):
             return ("ok", [canon(gi.get_neighbors_decoded(torch.tensor([args["state"]]))), canon(gi.hasher.make_hashes(gi.encode_states(args["state"])))])
         if op == "find_path":
             kw = {} if args["max_diameter"] is None else {"max_diameter": args["max_diameter"]}
+            if args.get("max_layer_size_to_explore") is not None:
+                kw["max_layer_size_to_explore"] = args["max_layer_size_to_explore"]
             return ("ok", canon(cayleypy.find_path(graph, args["state"], **kw)))
         if op == "apply_path":
-            return ("ok", canon(graph.apply_path(args["state"], args["path"])))
+            import numpy as np
+            form = args.get("as", "list")
+            if form == "central_state_of_the_graph":
+                # the caller hands the graph its own central-state tensor: neither it nor the argument may change
+                return ("ok", [canon(graph.apply_path(graph.central_state, args["path"])), canon(graph.central_state)])
+            obj = {"list": list(args["state"]), "tensor": torch.tensor(args["state"], dtype=torch.int64), "ndarray": np.array(args["state"], dtype=np.int64)}[form]
+            out = canon(graph.apply_path(obj, args["path"]))
+            return ("ok", [out, canon(obj) == canon(list(args["state"])), canon(graph.apply_path(obj, args["path"])) == out])
         if op == "export":
             r = graph.bfs(return_all_edges=True, return_all_hashes=True, max_layer_size_to_store=None, max_diameter=3)
             return ("ok", [canon(r.edges_list), r.vertex_names if gd["kind"] == "perm" else len(r.vertex_names)])
@@ -155,6 +165,16 @@ def run(ctx):
         ic = G.is_inverse_closed_ref(gd)
         ops = [gen_op(rng, gd, dist, layers, ic) for _ in range(rng.randint(3, maxlen))]
         verts_ = sorted(dist)
+        # every sequence queries find_path at least twice with different limits (the cached ball must follow the arguments of the call) and
+        # applies a path to the graph's own central-state tensor once
+        far_ = list(max(verts_, key=lambda v_: dist[v_]))
+        fp1 = ("find_path", {"state": list(rng.choice(verts_)), "max_diameter": rng.choice([1, 2]), "max_layer_size_to_explore": rng.choice([10**7, None, 50])})
+        fp2 = ("find_path", {"state": far_, "max_diameter": rng.choice([None, 3, 1]), "max_layer_size_to_explore": rng.choice([None, 5, None])})
+        i1 = rng.randint(0, len(ops))
+        ops.insert(i1, fp1)
+        ops.insert(rng.randint(i1 + 1, len(ops)), fp2)
+        ops.insert(rng.randint(0, len(ops)), ("apply_path", {"state": far_, "path": [rng.randrange(G.n_gens(gd)) for _ in range(rng.randint(2, 4))],
+                                                             "as": rng.choice(["central_state_of_the_graph", "tensor", "ndarray"])}))
         ops.insert(rng.randint(1, len(ops)), ("copy_queries", {"central": list(rng.choice(verts_)), "start": list(rng.choice(verts_)),
                                                               "which": rng.choice(["modified_copy", "inverted"]), "mode": rng.choice(["simple", "advanced"])}))
         graph = G.make_graph(gd, cfgd)
@@ -174,6 +194,10 @@ def run(ctx):
             if op == "copy_queries" and got[0] == "ok" and (got[1][0] != got[1][1] or not got[1][0][2]):
                 ctx.violation("property_fails", f"operation #{j}: a derived copy ({args['which']}) answers a beam search / records its central hash differently from a graph "
                               f"constructed directly from the same definition: copy {got[1][0]}, direct {got[1][1]} ([found, length, recorded hash = own hash])",
+                              dict(case, failing_index=j, got=str(got)[:300]), True)
+                break
+            if op == "apply_path" and got[0] == "ok" and args.get("as") in ("list", "tensor", "ndarray") and (got[1][1] is not True or got[1][2] is not True):
+                ctx.violation("property_fails", f"operation #{j} (apply_path with a {args['as']} argument) modified its argument or answers differently when repeated: {str(got)[:160]}",
                               dict(case, failing_index=j, got=str(got)[:300]), True)
                 break
             if got != fresh:
